@@ -1,6 +1,6 @@
 SPECIFICATION Spec
 CONSTANTS
-  MeshIds = {"tri2d", "quad2d", "tet", "tetmix", "mixed", "bad5", "bigid"}
+  MeshIds = {"tri2d", "quad2d", "tet", "tetmix", "mixed", "mix3", "thin10", "bad5", "bigid"}
   GeomNames = {"A", "B"}
   MaxDepth = 4
   MixedTypesSupported = TRUE
